@@ -127,7 +127,10 @@ is translated for any statement list without `return` / `break` / `continue`: th
 raise* (this is what makes the general form sound; without `raise_state` only the single pure-state assignment above is
 accepted).  `C` is `Exception` (every Python exception: `Py.Err.isPython`, i.e. not the translator's own `.fuel` /
 `.alias`), `SyntaxError`, `ValueError` or `RuntimeError` (the classes that map to one `Py.Err` each); `x` must be a
-declared local of type `Py.Err` and receives the exception.  Not combined with `alias_last` / `self_call`.
+declared local of type `Py.Err` and receives the exception.  Not combined with `self_call`.  With `alias_last` the reads
+and updates of the aliased object (`Py.aliasLast σ.x σ.l`, an expression) are evaluated by `Py.inState σ` like every other
+expression that can raise: an `AttributeError` on `None` (or the translator's `.alias`) carries the record as it is there.
+An in-place `np.nditer` loop needs nothing extra (its rows are written back by the recursive call of the loop function).
 
 `bool(e)` is the truth value of `e` (as in a condition).
 
@@ -203,6 +206,16 @@ Two more for `Engine.infer_type` / `Variable.highest_membership` (profiles `bloc
   the truth value of `e` when `e` cannot raise; otherwise `Py.allM` / `Py.anyM`, which evaluate the elements in order and
   stop at the first false (true) one as Python does - an element behind it is not evaluated and cannot raise;
 * `with contextlib.suppress(C): <statements>` is `try: <statements> except C: pass` (the forms of `try` above).
+
+Two entries added for `Operation.str` (profiles `raised.py`):
+
+* `self_call_defaults` (a list of parameter names): a recursive call in expression position that has no hole for such a
+  parameter (`Op.str(x_i)` inside `str(x, delimiter=" ")`) passes the *default value read from the signature in the
+  source*, as Python does - not the caller's value, which is what a parameter without a hole otherwise receives;
+* `return_view` (`{type: template}`): `return e` where `e` is an object of a sum type of the profile and the function
+  returns `ret` (`if isinstance(x, str): return x` in a function that returns a string): the template gives the `ret`
+  value that the object is (the case has been established by the preceding test; what the template yields for the
+  other cases is never looked at by a tie theorem that holds for every object).
 
 Anything outside the subset raises `Untranslatable` - the tie is then reported as broken (never silently skipped).
 """
@@ -401,8 +414,8 @@ class Fn:
             if isinstance(n, ast.Starred) and isinstance(n.value, ast.GeneratorExp):
                 self.genexp_ok.add(id(n.value))
         self.rs = bool(profile.get("raise_state"))
-        if self.rs and (profile.get("alias_last") or profile.get("self_call")):
-            raise Untranslatable("raise_state cannot be combined with alias_last / self_call")
+        if self.rs and profile.get("self_call"):
+            raise Untranslatable("raise_state cannot be combined with self_call")
 
     # ---------------------------------------------------------------- state at a raise (`raise_state`)
     def lift(self, term):
@@ -1168,7 +1181,7 @@ class Fn:
                     sets.append(f"{tg.id} := v.{i + 1}")
                 if e.pure:
                     return f"let v := {e.term}\nlet σ := {{ σ with {', '.join(sets)} }}\n{after()}"
-                return f"{e.term} >>= fun v =>\nlet σ := {{ σ with {', '.join(sets)} }}\n{after()}"
+                return f"{self.lift(e.term)} >>= fun v =>\nlet σ := {{ σ with {', '.join(sets)} }}\n{after()}"
             if isinstance(t, ast.Tuple) and all(isinstance(e, ast.Name) and e.id in self.locals for e in t.elts):
                 # targets are mutable locals: a sequence of ordinary assignments
                 v = s.value
@@ -1218,7 +1231,7 @@ class Fn:
                 cont = self.cs(rest[1:], k, loopk, brk)
                 if e.pure:
                     return f"let σ := {{ σ with {lst} := {app(paren(e.term))}, {x} := Py.Alias.live{others} }}\n{cont}"
-                return f"{e.term} >>= fun v =>\nlet σ := {{ σ with {lst} := {app('v')}, {x} := Py.Alias.live{others} }}\n{cont}"
+                return f"{self.lift(e.term)} >>= fun v =>\nlet σ := {{ σ with {lst} := {app('v')}, {x} := Py.Alias.live{others} }}\n{cont}"
             if isinstance(t, ast.Name) and t.id in self.p.get("rebind", {}) and t.id not in self.rebound:
                 e = self.ce(s.value)
                 self.rebound[t.id] = self.p["rebind"][t.id]
@@ -1264,8 +1277,8 @@ class Fn:
                     raise Untranslatable(f"attribute {t.attr} has type {fty}, assigned {e.ty}")
                 wrap = (lambda v: f"(some {v})") if opt else (lambda v: v)
                 if e.pure:
-                    return f"{self.alias_get(x)} >>= fun o =>\n{self.alias_set(x, '{ o with ' + fld + ' := ' + wrap(paren(e.term)) + ' }')}\n{after()}"
-                return f"{e.term} >>= fun v =>\n{self.alias_get(x)} >>= fun o =>\n{self.alias_set(x, '{ o with ' + fld + ' := ' + wrap('v') + ' }')}\n{after()}"
+                    return f"{self.lift(self.alias_get(x))} >>= fun o =>\n{self.alias_set(x, '{ o with ' + fld + ' := ' + wrap(paren(e.term)) + ' }')}\n{after()}"
+                return f"{self.lift(e.term)} >>= fun v =>\n{self.lift(self.alias_get(x))} >>= fun o =>\n{self.alias_set(x, '{ o with ' + fld + ' := ' + wrap('v') + ' }')}\n{after()}"
             if isinstance(t, ast.Attribute):
                 fld = ast.unparse(t).replace(".", "_")
                 if fld in self.locals:
@@ -1314,6 +1327,9 @@ class Fn:
             if s.value is None:
                 return ".ok σ"
             e = self.ce(s.value)
+            if self.ret_ty and e.ty != self.ret_ty and e.ty in self.p.get("return_view", {}):
+                # an object of a sum type of the profile returned where the function returns `ret`: the value it is
+                e = self.bind1(e, lambda x: self.p["return_view"][e.ty].format(paren(x)), self.ret_ty)
             if self.ret_ty and self.ret_ty.startswith("Option "):
                 # the function returns an object or None: ret = some (the optional)
                 inner = self.ret_ty[len("Option "):]
@@ -1363,8 +1379,8 @@ class Fn:
                 if "_" not in e.ty and e.ty != elem_type(fty):
                     raise Untranslatable(f"attribute {f.value.attr} has type {fty}, appended {e.ty}")
                 if e.pure:
-                    return f"{self.alias_get(x)} >>= fun o =>\n{self.alias_set(x, '{ o with ' + fld + ' := o.' + fld + ' ++ [' + e.term + '] }')}\n{after()}"
-                return f"{self.alias_get(x)} >>= fun o =>\n{e.term} >>= fun v =>\n{self.alias_set(x, '{ o with ' + fld + ' := o.' + fld + ' ++ [v] }')}\n{after()}"
+                    return f"{self.lift(self.alias_get(x))} >>= fun o =>\n{self.alias_set(x, '{ o with ' + fld + ' := o.' + fld + ' ++ [' + e.term + '] }')}\n{after()}"
+                return f"{self.lift(self.alias_get(x))} >>= fun o =>\n{self.lift(e.term)} >>= fun v =>\n{self.alias_set(x, '{ o with ' + fld + ' := o.' + fld + ' ++ [v] }')}\n{after()}"
             if isinstance(f, ast.Attribute) and f.attr == "append" and len(call.args) == 1 and isinstance(f.value, ast.Name):
                 if id(s) in self.alias_pairs:
                     raise Untranslatable("alias_last: the append of an alias pair was reached on its own")
@@ -1637,6 +1653,20 @@ class Fn:
             self.rec_in_loop = True
         return dict(zip(names, argnodes))
 
+    def self_call_default(self, pn, pt):
+        """the default value of the Python parameter `pn`, read from the signature in the source (a recursive call that
+        does not pass the parameter: the callee receives the default, not the caller's value)"""
+        a = self.fdef.args
+        pos = list(a.posonlyargs) + list(a.args)
+        dflt = dict(zip([x.arg for x in pos][len(pos) - len(a.defaults):], a.defaults))
+        dflt.update({x.arg: d for x, d in zip(a.kwonlyargs, a.kw_defaults) if d is not None})
+        if pn not in dflt:
+            raise Untranslatable(f"recursive call: parameter '{pn}' has no default value")
+        e = self.ce(dflt[pn])
+        if not e.pure or e.ty != pt:
+            raise Untranslatable(f"recursive call: the default of '{pn}' has type {e.ty} (expected a pure {pt})")
+        return paren(e.term)
+
     def self_call_expr(self, argnodes):
         """a recursive call inside an expression: arguments left to right (they may raise), then the call; its value"""
         if not self.ret_ty:
@@ -1648,7 +1678,7 @@ class Fn:
         args, binds = [], []
         for i, (pn, pt) in enumerate(self.params):
             if pn not in holes:
-                args.append(pn)
+                args.append(self.self_call_default(pn, pt) if pn in self.p.get("self_call_defaults", []) else pn)
                 continue
             a = self.ce(holes[pn])
             if a.ty in (f"Option {pt}", f"Option {paren(pt)}"):
